@@ -245,14 +245,22 @@ func genComposeArgs(r *gen.RNG) (byte, bool, []byte, int32) {
 		if c.Sign() == 0 {
 			c = big.NewInt(7)
 		}
-		k := r.Pick(r.Range(0, 40), r.Range(0, 900), 19, 38, 57, 4, 8)
+		if r.Chance(1, 4) {
+			// the top tenth of the coefficient range (35 digits next to Cmax): c*10^k is the widest foldable input
+			c = new(big.Int).Sub(ref.Cmax, r.BigBelow(ref.Pow10(r.Range(1, 33))))
+		}
+		k := r.Pick(r.Range(0, 40), r.Range(0, 120), r.Range(0, 900), 19, 38, 57, 4, 8)
 		N := new(big.Int).Mul(c, ref.Pow10(k))
 		var e int
-		switch r.Intn(4) {
+		switch r.Intn(6) {
 		case 0:
 			e = r.Range(ref.MinExp-k-2, ref.MinExp-k+40)
 		case 1:
 			e = r.Range(ref.MaxExp-k-40, ref.MaxExp-k+2)
+		case 2: // folded coefficient lands exactly on the largest / smallest exponent
+			e = ref.MaxExp - k
+		case 3:
+			e = ref.MinExp - k
 		default:
 			e = r.Range(-7000, 7000)
 		}
